@@ -179,6 +179,48 @@ Proof.
   intros H. unfold del_dep. rewrite H. exact del_dep_sink_only_refuted.
 Qed.
 
+(* ---- flag soundness of the primitive mutations, with the trigger bodies of the repository ---- *)
+
+(* Step.set_state (UPDATE step SET state, deferred + the AFTER UPDATE OF state triggers) *)
+Theorem C10_set_state_preserves_FlagInv :
+  forall g k st df, FlagInv g -> FlagInv (set_step_state g k st df).
+Proof. exact set_step_state_sound_repo. Qed.
+
+(* Step.hold / Step.release *)
+Theorem C10_hold_preserves_FlagInv : forall g k, WF g -> FlagInv g -> FlagInv (hold_step g k).
+Proof. exact hold_step_sound. Qed.
+Theorem C10_release_preserves_FlagInv :
+  forall g k g', WF g -> FlagInv g -> release_step g k = Some g' -> FlagInv g'.
+Proof. exact release_step_sound. Qed.
+
+(* INSERT INTO dependency (+ dynamic_dep) *)
+Theorem C10_ins_dep_preserves_FlagInv : forall g d, WF g -> FlagInv g -> FlagInv (ins_dep g d).
+Proof. exact ins_dep_sound_repo. Qed.
+
+(* DELETE FROM dependency (+ dynamic_dep): proved when the trigger also flags the producers of the
+   source file, or when the sink is not an attached step (nobody loses a consumer). *)
+Theorem C10_del_dep_preserves_FlagInv_partial :
+  forall g d, WF g -> FlagInv g ->
+    (flags_producers trg_dep_del = true \/
+     (forall sy, find_step g (d_snk d) = Some sy -> s_detached sy = true)) ->
+    FlagInv (del_dep g d).
+Proof. exact del_dep_sound_repo. Qed.
+
+Theorem C10_del_dep_need_flag_full_when_producers_flagged :
+  flags_producers trg_dep_del = true -> C10_del_dep_need_flag_full.
+Proof.
+  intros H g d Hwf HF _. unfold del_dep. apply del_dep_need_sound; try assumption.
+  - apply has_stmt_In. vm_compute. reflexivity.
+  - left. apply flags_producers_In. exact H.
+Qed.
+
+(* File.set_state: _safe and _ready (for _implied_need only a change to or from VOLATILE matters;
+   not proved) *)
+Theorem C10_set_file_state_preserves_FlagInv_partial :
+  forall g k st h, FlagInv_safe g /\ FlagInv_ready g ->
+    FlagInv_safe (set_file_state g k st h) /\ FlagInv_ready (set_file_state g k st h).
+Proof. exact set_file_state_sound_repo. Qed.
+
 (* Non-vacuity: the hypotheses are satisfiable by a graph with a chain plan -> c -> b, and the
    refutation witnesses are concrete. *)
 Example C10_example_hypotheses :
